@@ -193,10 +193,20 @@ Definition normdir (p : str) : str :=
 
 Definition is_dot (p : str) : bool := str_eqb p [DOT].
 
-(* Workflow.mark_dir_to_be_deleted *)
-Definition mark_dir (q : queue) (d : str) : queue :=
+(* labels (with trailing separator) of the attached static trees *)
+Definition attached_tree_labels (g : graph) : list str :=
+  map nlabel (filter (fun n => (nkind n =? KTREE) && negb (ndet n)) (gnodes g)).
+
+(* Workflow._find_owning_static_tree(d) is not None: label = substr(d + "/", 1, length(label)) *)
+Definition owned_by_tree (trees : list str) (d : str) : bool :=
+  existsb (fun t => is_prefix t (d ++ [SLASH])) trees.
+
+(* Workflow.mark_dir_to_be_deleted.  Whether directories of attached static trees are skipped is
+   REGENERATED from the source (gen/GenClean.v: mark_dir_skips_static_trees). *)
+Definition mark_dir (trees : list str) (q : queue) (d : str) : queue :=
   let n := normdir d in
-  if is_dot n then q else mkQ (qfiles q) (n :: qdirs q).
+  if is_dot n || (mark_dir_skips_static_trees && owned_by_tree trees n) then q
+  else mkQ (qfiles q) (n :: qdirs q).
 
 (* Step.command_and_workdir[1]: label.split("  # wd=", maxsplit=1) *)
 Definition WD_MARK : str := [32; 32; 35; 32; 119; 100; 61].
@@ -209,19 +219,19 @@ Fixpoint workdir_of (l : str) : str :=
 Definition memN (x : N) (l : list N) : bool := existsb (N.eqb x) l.
 
 (* File.before_delete / Step.before_delete; other kinds queue nothing *)
-Definition before_delete (n : node) (q : queue) : queue :=
+Definition before_delete (trees : list str) (n : node) (q : queue) : queue :=
   if nkind n =? KFILE then
     let q1 :=
       if memN (nfstate n) bd_volatile_states then qfile_set q (nlabel n) None
       else if memN (nfstate n) bd_hashed_states then
         match nfhash n with Some h => qfile_set q (nlabel n) (Some h) | None => q end
       else q in
-    mark_dir q1 (dirname (nlabel n))
-  else if nkind n =? KSTEP then mark_dir q (workdir_of (nlabel n))
+    mark_dir trees q1 (dirname (nlabel n))
+  else if nkind n =? KSTEP then mark_dir trees q (workdir_of (nlabel n))
   else q.
 
-Definition queue_deleted (deleted : list node) (q : queue) : queue :=
-  fold_left (fun q n => before_delete n q) deleted q.
+Definition queue_deleted (trees : list str) (deleted : list node) (q : queue) : queue :=
+  fold_left (fun q n => before_delete trees n q) deleted q.
 
 (* ---- finalize.revert_optional_steps -------------------------------------------------------- *)
 
@@ -250,15 +260,15 @@ Definition revert_node (g : graph) (n : node) : node :=
    non-volatile row always has a hash (CHECK constraint of the file table); a row without one
    (unreachable) would be queued with the unknown hash, which never compares equal to a file on
    disk, so it is modelled as not queued. *)
-Definition revert_queue_node (n : node) (q : queue) : queue :=
+Definition revert_queue_node (trees : list str) (n : node) (q : queue) : queue :=
   let q1 := if nfstate n =? revert_exempt then qfile_set q (nlabel n) None
             else match nfhash n with Some h => qfile_set q (nlabel n) (Some h) | None => q end in
-  mark_dir q1 (dirname (nlabel n)).
+  mark_dir trees q1 (dirname (nlabel n)).
 
 Definition revert_optional (g : graph) (q : queue) : graph * queue :=
   let targets := filter (is_revert_target g) (gnodes g) in
   (mkGraph (map (revert_node g) (gnodes g)) (gdeps g),
-   fold_left (fun q n => revert_queue_node n q) targets q).
+   fold_left (fun q n => revert_queue_node (attached_tree_labels g) n q) targets q).
 
 (* ---- Survivor characterisation (specification side) ---------------------------------------- *)
 
